@@ -23,6 +23,13 @@
 (*  [ev |-> "fsync",  path]                                                 *)
 (*  [ev |-> "close",  path]                                                 *)
 (*  [ev |-> "return", key]              set returned to the caller          *)
+(*  [ev |-> "rename", path, to]         rename(path, to) (os.replace)       *)
+(*  [ev |-> "dirsync", path, files]     fsync of the DIRECTORY path; files: *)
+(*                                      the paths directly inside it        *)
+(* A rename is atomic but is a change of the DIRECTORY: after a crash the   *)
+(* target shows its old state or the moved file, until the directory itself *)
+(* is synced (synced[p] remembers whether the data now under name p were    *)
+(* synced, under whatever name).                                            *)
 (*  [ev |-> "gbegin", key]              a GROUP of concurrent sets on key   *)
 (*                                      starts (first of them is called)    *)
 (*  [ev |-> "greturn", key, v, size]    the last set of the group returned; *)
@@ -42,6 +49,7 @@ MonInit(Paths) == [kern |-> [p \in Paths |-> Absent], dur |-> [p \in Paths |-> A
                    done |-> [p \in Paths |-> Absent],   \* last value whose set has returned
                    inflight |-> "", want |-> Absent,
                    ginfl |-> {},                          \* keys with a group of concurrent sets in flight
+                   synced |-> [p \in Paths |-> FALSE],    \* the kernel content of p has been fsynced (under any name)
                    bad |-> "ok"]
 
 Images(m, p) == {m.dur[p]} \cup m.loose[p]
@@ -51,16 +59,26 @@ Images(m, p) == {m.dur[p]} \cup m.loose[p]
 Durability(m) ==
   \A p \in DOMAIN m.kern : (p # m.inflight /\ p \notin m.ginfl) => Images(m, p) = {m.done[p]}
 
+InDir(e, p) == \E k \in 1..Len(e.files) : e.files[k] = p      \* the recorder lists the files directly inside the synced directory
+
 Apply(m, e) ==
   CASE e.ev = "begin"  -> [m EXCEPT !.inflight = e.key, !.want = <<e.v, e.size>>]
-    [] e.ev = "otrunc" -> [m EXCEPT !.kern[e.path] = Empty,
+    [] e.ev = "rename" -> [m EXCEPT !.kern[e.to] = m.kern[e.path], !.kern[e.path] = Absent,
+                                    !.synced[e.to] = m.synced[e.path], !.synced[e.path] = FALSE,
+                                    !.loose[e.to] = @ \cup Images(m, e.path) \cup {m.kern[e.path], m.kern[e.to]},
+                                    !.loose[e.path] = @ \cup {Absent, m.kern[e.path]}]
+    [] e.ev = "dirsync" -> [m EXCEPT !.dur = [p \in DOMAIN m.kern |-> IF InDir(e, p) /\ (m.synced[p] \/ m.kern[p] = Absent)
+                                                                     THEN m.kern[p] ELSE m.dur[p]],
+                                     !.loose = [p \in DOMAIN m.kern |-> IF InDir(e, p) /\ (m.synced[p] \/ m.kern[p] = Absent)
+                                                                       THEN {} ELSE m.loose[p]]]
+    [] e.ev = "otrunc" -> [m EXCEPT !.kern[e.path] = Empty, !.synced[e.path] = FALSE,
                                     !.loose[e.path] = @ \cup {Empty} \cup (IF m.kern[e.path] = Absent THEN {} ELSE {m.kern[e.path]})]
     [] e.ev = "write"  -> LET old == m.kern[e.path]
                               from == IF old[1] = e.v THEN old[2] ELSE 0 IN
-                          [m EXCEPT !.kern[e.path] = <<e.v, e.upto>>,
+                          [m EXCEPT !.kern[e.path] = <<e.v, e.upto>>, !.synced[e.path] = FALSE,
                                     !.loose[e.path] = @ \cup {<<e.v, n>> : n \in from..e.upto}
                                                         \cup (IF old = Absent THEN {} ELSE {old})]
-    [] e.ev = "fsync"  -> [m EXCEPT !.dur[e.path] = m.kern[e.path], !.loose[e.path] = {}]
+    [] e.ev = "fsync"  -> [m EXCEPT !.dur[e.path] = m.kern[e.path], !.loose[e.path] = {}, !.synced[e.path] = TRUE]
     [] e.ev = "return" -> [m EXCEPT !.done[e.key] = m.want, !.inflight = ""]
     [] e.ev = "gbegin" -> [m EXCEPT !.ginfl = @ \cup {e.key}]
     [] e.ev = "greturn" -> [m EXCEPT !.done[e.key] = <<e.v, e.size>>, !.ginfl = @ \ {e.key}]
